@@ -35,10 +35,10 @@ struct Obs { // what one event made observable
     }
 };
 inline std::string Show(const Obs& o) {
-    std::string s = Fmt("irq=%d frames=[", o.irq);
-    for (auto& f : o.frames)
-        s += Fmt("(%d,%d)", f[0], f[1]);
-    return s + "]";
+    std::string s = Fmt("irq=%d frames(%zu)=[", o.irq, o.frames.size());
+    for (size_t i = 0; i < o.frames.size() && i < 12; ++i)
+        s += Fmt("(%d,%d)", o.frames[i][0], o.frames[i][1]);
+    return s + (o.frames.size() > 12 ? "...]" : "]");
 }
 
 // full concrete state incl. queue contents, used for exact comparison
@@ -78,6 +78,28 @@ struct Ref { // the statement
         }
         s.b.size = (u16)s.q.size();
     }
+    // k cycles at once, closed form over the frame clock (used for large k; agrees with k x Tick)
+    static void Advance(Full& s, Obs& o, u64 k) {
+        if (!s.b.enable || k == 0)
+            return;
+        u64 total = (u64)s.b.timer + k;
+        u64 frames = total / s.b.period;
+        s.b.timer = (u16)(total % s.b.period);
+        for (u64 f = 0; f < frames; ++f) {
+            std::array<std::int16_t, 2> fr{0, 0};
+            for (int i = 0; i < 2; ++i)
+                if (!s.q.empty()) {
+                    fr[i] = (std::int16_t)s.q.front();
+                    s.q.pop_front();
+                    s.b.full = 0;
+                    s.b.empty = s.q.empty();
+                    if (s.q.empty())
+                        ++o.irq;
+                }
+            o.frames.push_back(fr);
+        }
+        s.b.size = (u16)s.q.size();
+    }
     static void Send(Full& s, u16 v) {
         if (s.q.size() == 16)
             return; // dropped
@@ -112,6 +134,7 @@ struct Engine {
     Obs obs;
     Result& res;
     u16 base;
+    bool large = false; // large-period layer: sparse Skip(k) alphabet, depth-bounded
     std::set<u64> digests;
 
     Engine(Result& r, u16 base) : res(r), base(base) {
@@ -165,6 +188,26 @@ struct Engine {
         std::vector<Event> ev{{EvTick, 0}, {EvSend, 0}, {EvFlush, 0}, {EvEnable, 0}, {EvEnable, 1}};
         Load(Concrete(s));
         u64 h = dev.GetMaxSkip();
+        if (large) {
+            // sparse but boundary-complete set of k: frame boundaries, the horizon and its
+            // neighbours, and the 16-bit wrap of the frame clock
+            u64 p = s.period, t = s.timer;
+            std::set<u64> ks{0, 1, 2, 3, p - t - 1, p - t, p - t + 1, p, p + 1, 2 * p, 2 * p - t, 3 * p - t - 1,
+                             65535 - t, 65536 - t, 65537 - t, 70000};
+            if (h != ~0ull) {
+                ks.insert(h);
+                ks.insert(h / 2);
+                if (h)
+                    ks.insert(h - 1);
+            } else {
+                ks.insert(100000);
+                ks.insert(1u << 20);
+            }
+            for (u64 k : ks)
+                if (k <= h && k <= (1u << 20))
+                    ev.push_back({EvSkip, k});
+            return ev;
+        }
         u64 lim = std::min<u64>(h, 2 * s.period + 1);
         for (u64 k = 0; k <= lim; ++k)
             ev.push_back({EvSkip, k});
@@ -200,8 +243,12 @@ struct Engine {
                 break;
             case EvSkip:
                 dev.Skip(e.arg);
-                for (u64 i = 0; i < e.arg; ++i)
-                    Ref::Tick(ref, ref_obs);
+                if (e.arg <= 64) {
+                    for (u64 i = 0; i < e.arg; ++i)
+                        Ref::Tick(ref, ref_obs);
+                } else {
+                    Ref::Advance(ref, ref_obs, e.arg);
+                }
                 break;
             }
         } catch (const Teakra::VerifAssertion& a) {
@@ -224,7 +271,7 @@ struct Engine {
                                  Show(got_obs).c_str(), Show(ref).c_str(), Show(ref_obs).c_str()),
                              Replay(s, e));
         }
-        if (e.kind == EvSkip) {
+        if (e.kind == EvSkip && e.arg <= 200000) {
             // horizon never skips over the empty interrupt: k real Ticks must not fire it
             Load(start);
             try {
@@ -257,12 +304,12 @@ struct Engine {
         return got.b;
     }
 
-    void Explore(u16 period) {
+    void Explore(u16 period, int max_depth = 1000000) {
         BS init{period, 0, 0, 1, 0, 0};
         std::unordered_set<BS, BSHash> seen{init};
         std::vector<BS> frontier{init}, next;
         int depth = 0;
-        while (!frontier.empty()) {
+        while (!frontier.empty() && depth < max_depth) {
             next.clear();
             for (auto& s : frontier)
                 for (auto& e : Enabled(s)) {
@@ -274,14 +321,10 @@ struct Engine {
                 }
             frontier.swap(next);
             ++depth;
-            if (depth > 10000) {
-                res.exhaustive = false;
-                break;
-            }
         }
         res.states += seen.size();
-        res.Extra(Fmt("period%u_base%04X_states", period, base), seen.size());
-        res.Extra(Fmt("period%u_base%04X_depth", period, base), depth);
+        res.Extra(Fmt("%speriod%u_base%04X_states", large ? "L2_" : "", period, base), seen.size());
+        res.Extra(Fmt("%speriod%u_base%04X_depth", large ? "L2_" : "", period, base), depth);
     }
 };
 
@@ -315,16 +358,23 @@ inline void Run(const Args& args, Result& res) {
     std::vector<u16> periods = args.thorough() ? std::vector<u16>{1, 2, 3, 4, 5, 7, 8}
                                                : std::vector<u16>{1, 2, 3, 4};
     std::vector<u16> bases = {1, 0x7FF8};
+    int large_depth = args.thorough() ? 7 : 6;
     u64 dist = 0;
     for (u16 b : bases) {
         Engine eng(res, b);
         for (u16 p : periods)
             eng.Explore(p);
+        // L2: large periods (default 4096 and values for which clock+k crosses 2^16), sparse Skip alphabet
+        eng.large = true;
+        for (u16 p : {(u16)4096, (u16)20000, (u16)0x8001, (u16)0xFFFF})
+            eng.Explore(p, large_depth);
         dist += eng.digests.size();
     }
     res.distinct_nontrivial = dist;
-    res.bound = Fmt("complete reachable state set for each of %zu periods x 2 value labellings, queue fills 0..16",
-                    periods.size());
+    res.bound = Fmt("L1: complete reachable state set for each of %zu small periods x 2 value labellings, queue fills "
+                    "0..16, every k up to the horizon; L2: periods 4096/20000/0x8001/0xFFFF to depth %d with Skip(k) at "
+                    "frame boundaries, horizon, horizon-1, horizon/2 and around the 16-bit wrap of clock+k",
+                    periods.size(), large_depth);
     res.assumptions = {
         "the transmit period is fixed before the first cycle (period changes and period 0 are outside the statement)",
         "queued values are consecutive sequence numbers; the device never inspects them"};
